@@ -15,7 +15,11 @@ def main():
     os.makedirs(outdir, exist_ok=True)
     for m in muts:
         d = tlc.stage()
-        cfg = open(os.path.join(d, 'Attack_%s.cfg' % module)).read().replace('@MUT@', m)
+        cfg = open(os.path.join(d, 'Attack_%s.cfg' % module)).read()
+        if m.startswith('unfix:'):
+            cfg = cfg.replace('@MUT@', '').replace('@FIXED@', 'FxNo' + m[6:].capitalize())
+        else:
+            cfg = cfg.replace('@MUT@', m).replace('@FIXED@', 'AllFixed')
         open(os.path.join(d, 'a.cfg'), 'w').write(cfg)
         r = tlc.run(d, 'Attack_%s' % module, 'a.cfg', workers=8, timeout=900, heap='12g')
         if not r.trace:
@@ -23,8 +27,11 @@ def main():
             print(r.stdout[-800:])
             continue
         steps = [tlaval.plain(s['state']['act']) for s in r.trace[1:]]
-        json.dump({'id': 'attack-%s' % m, 'mutant': m, 'violates': r.violated, 'steps': steps},
-                  open(os.path.join(outdir, '%s-%s.json' % (module, m)), 'w'), indent=1)
+        if 'abs' in r.trace[0]['state']:
+            for st, s in zip(steps, r.trace[1:]):
+                st['mh'] = len(tlaval.plain(s['state']['abs'])) - 1
+        json.dump({'id': 'attack-%s' % m.replace(':', '-'), 'mutant': m, 'violates': r.violated, 'steps': steps},
+                  open(os.path.join(outdir, '%s-%s.json' % (module, m.replace(':', '-'))), 'w'), indent=1)
         print(m, r.violated, len(steps), 'steps', r.distinct, 'states', '%.1fs' % r.wall)
         import shutil; shutil.rmtree(d, ignore_errors=True)
 
